@@ -543,10 +543,15 @@ def run_diag(ctx, case):
             d1.proba_distribution(T(np.full((len(xs), 1), m0)), T(np.full((len(xs), 1), ls[0, 0])))
             p = np.exp(N(d1.log_prob(T(xs.reshape(-1, 1)))))
             integ = float(np.sum(0.5 * (p[1:] + p[:-1]) * np.diff(xs)))
-            rep.count("diag:integrated")
-            if abs(integ - 1.0) > 1e-3:
-                V(rep, "exp(log_prob) does not integrate to 1", case, "diag", "log_prob", "normalisation", {"integral": integ})
-                return None
+            coarse = float(np.sum(0.5 * (p[2::2] + p[:-2:2]) * (xs[2::2] - xs[:-2:2])))
+            if abs(integ - coarse) < 1e-4:
+                rep.count("diag:integrated")
+                if abs(integ - 1.0) > 1e-3:
+                    V(rep, "exp(log_prob) does not integrate to 1", case, "diag", "log_prob", "normalisation",
+                      {"integral": integ, "quadrature_error_estimate": abs(integ - coarse)})
+                    return None
+            else:
+                rep.count("diag:integration_skipped_unresolved")
     op = {"op": "diag", "mean": enc(mean), "log_std": enc(ls), "actions": enc(act), "unbatched": bool(unb)}
     if z is not None:
         op["noise"] = enc(z)
@@ -724,21 +729,49 @@ def run_squashed(ctx, case):
                 V(rep, "log_prob_from_params differs from log_prob of the returned sample", case, "squashed",
                   "from_params", "inconsistent", {"row": b, "from_params": lp_fp[b], "log_prob(sample)": lp_again[b]})
                 return None
-    # ---- 1-D: numerical integration over the action interval
+    # ---- 1-D: numerical integration, in the pre-squash variable x (a = tanh x is an exact change of variables:
+    # the integral over a of p_a equals the integral over x of p_a(tanh x) (1 - tanh^2 x)); the grid is the set of distinct
+    # float32 actions, mapped back with artanh in float64; asserted only when the quadrature error estimate
+    # (all points vs every other point) is below 1e-4
     if D == 1:
         m0, s0 = mean[0, 0], sig[0, 0]
-        if abs(m0) + 8 * s0 <= 5.0 and s0 > 1e-3:
-            xg = m0 + s0 * np.linspace(-8, 8, 3201)
+        if abs(m0) + 10 * s0 <= 6.0 and s0 > 1e-4:
+            xg = m0 + s0 * np.linspace(-10, 10, 4001)
             ys = np.unique(np.float32(np.tanh(xg)).astype(np.float64))
-            d1 = SquashedDiagGaussianDistribution(1)
-            d1.proba_distribution(T(np.full((len(ys), 1), m0)), T(np.full((len(ys), 1), ls[0, 0])))
-            p = np.exp(N(d1.log_prob(T(ys.reshape(-1, 1)))))
-            integ = float(np.sum(0.5 * (p[1:] + p[:-1]) * np.diff(ys)))
-            rep.count("squashed:integrated")
-            if abs(integ - 1.0) > 1e-3:
-                V(rep, "exp(log_prob) does not integrate to 1 over the action interval", case, "squashed", "log_prob",
-                  "normalisation", {"integral": integ})
-                return None
+            ys = ys[np.abs(ys) < 1.0]
+            if len(ys) >= 400:
+                xs_ = np.arctanh(ys)
+                jac = (1.0 - ys) * (1.0 + ys)
+                d1 = SquashedDiagGaussianDistribution(1)
+                d1.proba_distribution(T(np.full((len(ys), 1), m0)), T(np.full((len(ys), 1), ls[0, 0])))
+                f = np.exp(N(d1.log_prob(T(ys.reshape(-1, 1))))) * jac
+
+                def trap(v, x):
+                    return float(np.sum(0.5 * (v[1:] + v[:-1]) * np.diff(x)))
+
+                integ, coarse = trap(f, xs_), trap(f[::2], xs_[::2])
+                # what the documented regulariser makes of a normalised density: each value is divided by 1 + eps/(1-a^2)
+                gauss = np.exp(-((xs_ - m0) ** 2) / (2 * s0 * s0)) / (s0 * math.sqrt(2 * math.pi))
+                expect_reg = trap(gauss * jac / (jac + EPSILON), xs_)
+                if abs(integ - coarse) < 1e-4 and abs(trap(gauss, xs_) - 1.0) < 1e-4:
+                    rep.count("squashed:integrated")
+                    if abs(integ - 1.0) > 1e-3:
+                        if abs(integ - expect_reg) <= 2e-4:
+                            rep.count("squashed:integral_below_one_by_regulariser")
+                            V(rep, "exp(log_prob) integrates to less than 1 over the action interval: explained by the "
+                              "epsilon in log(1 - a^2 + epsilon)", case, "squashed", "log_prob", "squash_regulariser",
+                              {"integral": integ, "with_regulariser": expect_reg})
+                        else:
+                            V(rep, "exp(log_prob) does not integrate to 1 over the action interval", case, "squashed",
+                              "log_prob", "normalisation", {"integral": integ, "with_regulariser": expect_reg,
+                                                            "quadrature_error_estimate": abs(integ - coarse)})
+                            return None
+                    elif abs(integ - expect_reg) > 1e-3:
+                        V(rep, "exp(log_prob) does not integrate to 1 over the action interval", case, "squashed",
+                          "log_prob", "normalisation", {"integral": integ, "with_regulariser": expect_reg})
+                        return None
+                else:
+                    rep.count("squashed:integration_skipped_unresolved")
     op = {"op": "squashed", "mean": enc(mean), "log_std": enc(ls), "actions": enc(act), "epsilon": bits(EPSILON),
           "eps": bits(EPS32)}
     impl = {"log_prob": lp, "mode": mode}
